@@ -2,8 +2,8 @@
    Gen/Toast.v (the four TOAST constants, is_toast_pointer, needs_toast, parse_chunk_key, ToastPointer::row_id /
    column_index) is regenerated from src/storage/toast.rs on every run; Model/Toast.v (pointer codec,
    chunk keys, chunking, the toast table) and Model/ToastSql.v (what INSERT / UPDATE / DELETE / reopen /
-   SELECT do to a stored value on the repaired tree - 60cb117, 16c5acb, 1b44555, 170f3f6 -, the property's
-   oracle spec_hist, the one finding class that survives) are hand-written. *)
+   SELECT do to a stored value on the repaired tree - 60cb117, 16c5acb, 1b44555, 170f3f6, cc39952 -, the
+   property's oracle spec_hist) are hand-written. *)
 From Coq Require Import ZArith List Bool.
 From TV Require Import Lib.MachInt Gen.Toast Model.Toast Model.Utf8 Model.ToastSql
   Proof.ToastCodec Proof.ToastStore Proof.ToastSqlMain.
@@ -90,54 +90,41 @@ Proof. exact readback_inline_l. Qed.
 
 (* ================================================================ the property on histories *)
 (* For every column type class, with or without an integer primary key, and EVERY history of INSERT / UPDATE /
-   DELETE / close+reopen / SELECT steps (any paths, any values that fit the column - BLOBs that are valid UTF-8
-   and 17-byte 0xFE-led BLOBs included -, no key inserted twice, fewer than 2^47 steps): unless a re-executed
-   prepared INSERT has written pointer-like bytes (hist_class = 4, the one defect left), what the model shows
-   satisfies the property's oracle - every SELECT returns, for every key, exactly the value (type and bytes)
-   of the last write that reported success.  No toast write can fail in such a history. *)
+   DELETE / close+reopen / SELECT steps (any of the three write paths, any values that fit the column - BLOBs
+   that are valid UTF-8 and 17-byte 0xFE-led BLOBs included -, no key inserted twice, fewer than 2^47 steps):
+   what the model shows satisfies the property's oracle - every SELECT returns, for every key, exactly the value
+   (type and bytes) of the last write that reported success.  No finding class is left to exclude; no toast
+   write can fail in such a history. *)
 Theorem history_readback :
-  forall ty pk ops, wf_hist ty ops = true -> hist_class ty pk ops = 0 -> spec_hist ops (run ty pk ops) = true.
+  forall ty pk ops, wf_hist ty ops = true -> spec_hist ops (run ty pk ops) = true.
 Proof. exact history_readback_l. Qed.
 
-(* the surviving class: insert_cached stores a 17-byte 0xFE-led blob inline and SELECT detoasts it *)
-Theorem history_refuted_cached_pointer :
-  wf_hist TBlob ops_cached_pointer = true /\ hist_class TBlob false ops_cached_pointer = 4 /\
-  run TBlob false ops_cached_pointer = [SWrote true; SWrote true; SRows [(1, VBlob [0]); (2, VBlob [])]] /\
-  spec_hist ops_cached_pointer (run TBlob false ops_cached_pointer) = false.
-Proof. exact history_refuted_cached_pointer_l. Qed.
+(* the four classes that used to break the property (BLOB that is valid UTF-8 read back as TEXT, 16c5acb; pointer-like
+   BLOB detoasted, 170f3f6; rejected UPDATE destroying the stored value, 1b44555; re-executed prepared INSERT
+   storing pointer-like bytes inline, cc39952): their witnesses now read back what was written *)
+Theorem former_classes_repaired :
+  (run TBlob false ops_utf8_blob = [SWrote true; SRows [(1, VBlob (repeat 97 1001))]] /\
+   spec_hist ops_utf8_blob (run TBlob false ops_utf8_blob) = true) /\
+  (run TBlob false ops_fake_pointer = [SWrote true; SRows [(1, VBlob (254 :: repeat 0 16))]] /\
+   spec_hist ops_fake_pointer (run TBlob false ops_fake_pointer) = true) /\
+  (run TText false ops_lost_update =
+     [SWrote true; SWrote true; SWrote true; SRows [(1, VText (repeat 99 1001)); (2, VText (repeat 98 1001))];
+      SWrote true; SRows [(1, VText (repeat 99 1001)); (2, VText (repeat 100 1001))]] /\
+   spec_hist ops_lost_update (run TText false ops_lost_update) = true) /\
+  (run TBlob false ops_cached_pointer =
+     [SWrote true; SWrote true; SWrote true;
+      SRows [(1, VBlob [0]); (2, VBlob (254 :: repeat 0 16)); (3, VBlob (repeat 255 1001))]] /\
+   spec_hist ops_cached_pointer (run TBlob false ops_cached_pointer) = true).
+Proof. exact former_classes_repaired_l. Qed.
 
-(* historical (repaired by 16c5acb): a BLOB above the threshold that is valid UTF-8 came back as TEXT; now as BLOB *)
-Theorem historical_utf8_blob :
-  hist_class TBlob false ops_utf8_blob = 0 /\
-  run TBlob false ops_utf8_blob = [SWrote true; SRows [(1, VBlob (repeat 97 1001))]] /\
-  spec_hist ops_utf8_blob (run TBlob false ops_utf8_blob) = true.
-Proof. exact historical_utf8_blob_l. Qed.
-
-(* historical (repaired by 170f3f6 on the ordinary paths): a 17-byte blob led by 0xFE was detoasted; now it is
-   stored out of line and comes back unchanged *)
-Theorem historical_fake_pointer :
-  hist_class TBlob false ops_fake_pointer = 0 /\
-  run TBlob false ops_fake_pointer = [SWrote true; SRows [(1, VBlob (254 :: repeat 0 16))]] /\
-  spec_hist ops_fake_pointer (run TBlob false ops_fake_pointer) = true.
-Proof. exact historical_fake_pointer_l. Qed.
-
-(* historical (repaired by 1b44555): the UPDATE of row 2 was rejected after deleting its old chunks; now it succeeds *)
-Theorem historical_lost_update :
-  hist_class TText false ops_lost_update = 0 /\
-  run TText false ops_lost_update =
-    [SWrote true; SWrote true; SWrote true; SRows [(1, VText (repeat 99 1001)); (2, VText (repeat 98 1001))];
-     SWrote true; SRows [(1, VText (repeat 99 1001)); (2, VText (repeat 100 1001))]] /\
-  spec_hist ops_lost_update (run TText false ops_lost_update) = true.
-Proof. exact historical_lost_update_l. Qed.
-
-(* non-vacuity: a history with values on both sides of the threshold, pointer-like blobs, all three paths, UPDATEs,
-   a DELETE, a reopen and an INSERT after it satisfies the hypotheses of history_readback; the codec hypotheses
-   are met by concrete values *)
+(* non-vacuity: a history with values on both sides of the threshold, pointer-like blobs, all three paths (the prepared
+   statement re-executed), UPDATEs, a DELETE, a reopen and INSERTs after it satisfies the hypothesis of
+   history_readback; the codec hypotheses are met by concrete values *)
 Example c11_history_witness :
-  wf_hist TBlob ops_example = true /\ hist_class TBlob false ops_example = 0 /\
+  wf_hist TBlob ops_example = true /\
   run TBlob false ops_example =
-    [SWrote true; SWrote true; SWrote true; SWrote true; SWrote true; SWrote true; SReopened true; SWrote true;
-     SRows [(1, VBlob (repeat 99 (Z.to_nat 9000))); (2, VBlob (repeat 100 1001)); (4, VBlob (254 :: repeat 2 16))]].
+    [SWrote true; SWrote true; SWrote true; SWrote true; SWrote true; SWrote true; SReopened true; SWrote true; SWrote true;
+     SRows [(1, VBlob (repeat 99 (Z.to_nat 9000))); (2, VBlob (repeat 100 1001)); (4, VBlob [7]); (5, VBlob (254 :: repeat 2 16))]].
 Proof. exact history_example_l. Qed.
 
 Example c11_codec_witness :
@@ -171,21 +158,20 @@ Check readback_toasted : forall ty m rid b, 0 <= rid < 2 ^ 48 -> blen b < ALLOC_
     match ty with TText => if valid_utf8 b then ROk (VText b) else RErr | _ => ROk (VBlob b) end.
 Check readback_inline : forall ty m b, is_toast_pointer b = false ->
     read_value ty m (SBytes b) = ROk (match ty with TBlob => VBlob b | _ => VText b end).
-Check history_readback : forall ty pk ops, wf_hist ty ops = true -> hist_class ty pk ops = 0 -> spec_hist ops (run ty pk ops) = true.
-Check history_refuted_cached_pointer : wf_hist TBlob ops_cached_pointer = true /\ hist_class TBlob false ops_cached_pointer = 4 /\
-    run TBlob false ops_cached_pointer = [SWrote true; SWrote true; SRows [(1, VBlob [0]); (2, VBlob [])]] /\
-    spec_hist ops_cached_pointer (run TBlob false ops_cached_pointer) = false.
-Check historical_utf8_blob : hist_class TBlob false ops_utf8_blob = 0 /\
-    run TBlob false ops_utf8_blob = [SWrote true; SRows [(1, VBlob (repeat 97 1001))]] /\
-    spec_hist ops_utf8_blob (run TBlob false ops_utf8_blob) = true.
-Check historical_fake_pointer : hist_class TBlob false ops_fake_pointer = 0 /\
-    run TBlob false ops_fake_pointer = [SWrote true; SRows [(1, VBlob (254 :: repeat 0 16))]] /\
-    spec_hist ops_fake_pointer (run TBlob false ops_fake_pointer) = true.
-Check historical_lost_update : hist_class TText false ops_lost_update = 0 /\
-    run TText false ops_lost_update =
-      [SWrote true; SWrote true; SWrote true; SRows [(1, VText (repeat 99 1001)); (2, VText (repeat 98 1001))];
-       SWrote true; SRows [(1, VText (repeat 99 1001)); (2, VText (repeat 100 1001))]] /\
-    spec_hist ops_lost_update (run TText false ops_lost_update) = true.
+Check history_readback : forall ty pk ops, wf_hist ty ops = true -> spec_hist ops (run ty pk ops) = true.
+Check former_classes_repaired :
+  (run TBlob false ops_utf8_blob = [SWrote true; SRows [(1, VBlob (repeat 97 1001))]] /\
+   spec_hist ops_utf8_blob (run TBlob false ops_utf8_blob) = true) /\
+  (run TBlob false ops_fake_pointer = [SWrote true; SRows [(1, VBlob (254 :: repeat 0 16))]] /\
+   spec_hist ops_fake_pointer (run TBlob false ops_fake_pointer) = true) /\
+  (run TText false ops_lost_update =
+     [SWrote true; SWrote true; SWrote true; SRows [(1, VText (repeat 99 1001)); (2, VText (repeat 98 1001))];
+      SWrote true; SRows [(1, VText (repeat 99 1001)); (2, VText (repeat 100 1001))]] /\
+   spec_hist ops_lost_update (run TText false ops_lost_update) = true) /\
+  (run TBlob false ops_cached_pointer =
+     [SWrote true; SWrote true; SWrote true;
+      SRows [(1, VBlob [0]); (2, VBlob (254 :: repeat 0 16)); (3, VBlob (repeat 255 1001))]] /\
+   spec_hist ops_cached_pointer (run TBlob false ops_cached_pointer) = true).
 
 Print Assumptions pointer_roundtrip.
 Print Assumptions chunk_key_roundtrip.
@@ -200,7 +186,4 @@ Print Assumptions toast_collision.
 Print Assumptions readback_toasted.
 Print Assumptions readback_inline.
 Print Assumptions history_readback.
-Print Assumptions history_refuted_cached_pointer.
-Print Assumptions historical_utf8_blob.
-Print Assumptions historical_fake_pointer.
-Print Assumptions historical_lost_update.
+Print Assumptions former_classes_repaired.
